@@ -14,7 +14,7 @@ META = {
                  'hold references and are persisted later, restart = restore + replay with recovered=true + '
                  'finishedRecovery, tombstones, data directories) checked exhaustively by TLC over all valid operation '
                  'sequences; TLC-generated behaviours executed on real never-started Server values (Server.apply, '
-                 'Snapshot, fsmSnapshot.Persist, Restore, finishedRecovery); every recorded step judged by TLC',
+                 'Snapshot, fsmSnapshot.Persist, Restore, finishedRecovery, finishRestore); every recorded step judged by TLC',
     'level_text': 'TLC enumerates every valid sequence (leader-side preconditions as guards) of create/delete/pause/'
                   'resume/read-only/ISR shrink/ISR expand/leader change and consumer-group operations within small '
                   'bounds, every snapshot position, every later Persist position and every restart position, and checks '
@@ -331,8 +331,7 @@ def run(rep, tier, seed, replay):
             behaviours.append(b)
         lap('design + simulation ' + mc[:-4])
     # the open findings must stay reachable in the model (otherwise the model lost them)
-    for cfg, prop in (('MC_MetadataFSM_finding.cfg', 'A_RS_GroupEpoch'), ('MC_MetadataFSM_finding2.cfg', 'A_RS_GroupAsg'),
-                      ('MC_MetadataFSM_finding3.cfg', 'A_RS_Started')):
+    for cfg, prop in (('MC_MetadataFSM_finding.cfg', 'A_RS_GroupEpoch'), ('MC_MetadataFSM_finding2.cfg', 'A_RS_GroupAsg')):
         fres = core.tlc_check('MC_MetadataFSM.tla', cfg, timeout=600, workers=4)
         rep.cov['design_checks'].append({'config': cfg[:-4], 'violated': fres['violated'],
                                          'note': 'expected: %s violated (open known finding reachable in the model)' % prop})
